@@ -303,7 +303,8 @@ func Random(rng *rand.Rand, cfg Config) *Node {
 func AvoidKnownFindings(root *Node) {
 	risky := false
 	root.Walk(func(n *Node) {
-		if n.Kind != KQuant || n.Lo == 0 {
+		// (any minimum: the reducer coalesces adjacent loops and literals, e.g. ` {0,2}  *` into ` +`)
+		if n.Kind != KQuant {
 			return
 		}
 		b := n.Subs[0]
